@@ -55,12 +55,48 @@ def lib_fds(tmp, exclude=()):
     return roles
 
 
+class Interrupting(object):
+    """a file object whose second read() is interrupted (KeyboardInterrupt); everything else is the real file's"""
+
+    def __init__(self, fo):
+        object.__setattr__(self, "_fo", fo)
+        object.__setattr__(self, "_reads", 0)
+
+    def read(self, *a):
+        object.__setattr__(self, "_reads", self._reads + 1)
+        if self._reads == 2:
+            raise KeyboardInterrupt("interrupted while reading")
+        return self._fo.read(*a)
+
+    def __getattr__(self, name):
+        return getattr(self._fo, name)
+
+    def __enter__(self):
+        return self
+
+    def __exit__(self, *a):
+        return self._fo.__exit__(*a)
+
+
+class InterruptingBytes(io.BytesIO):
+    def __init__(self, data):
+        io.BytesIO.__init__(self, data)
+        self._reads = 0
+
+    def read(self, *a):
+        self._reads += 1
+        if self._reads == 2:
+            raise KeyboardInterrupt("interrupted while reading")
+        return io.BytesIO.read(self, *a)
+
+
 class OpenTracker(object):
     """interposes builtins.open: every file object opened on the scratch directory's .tdms / .tdms_index files while
     the library runs is kept referenced, so a handle that only garbage collection would close still counts as open"""
 
-    def __init__(self, tmp):
+    def __init__(self, tmp, interrupt=False):
         import builtins
+        self.interrupt = interrupt
         self.tmp = tmp
         self.builtins = builtins
         self.orig = builtins.open
@@ -77,6 +113,8 @@ class OpenTracker(object):
             if self.active and isinstance(name, str) and name.startswith(self.tmp) and \
                     (name.endswith(".tdms") or name.endswith(".tdms_index")):
                 self.files.append((name, fo))
+                if self.interrupt:
+                    return Interrupting(fo)
             return fo
         self.builtins.open = tracked
         return self
@@ -126,7 +164,9 @@ def replay_lifecycle_case(case):
             if cfg["source"] == "path":
                 return path + "_index" if cfg["index"] == "indexonly" else path
             data = e.index if cfg["index"] == "indexonly" else e.data
-            if variant % 3 == 0:
+            if cfg["fault"] == "interrupt":
+                s = InterruptingBytes(data)
+            elif variant % 3 == 0:
                 s = io.BytesIO(data)
             else:
                 p2 = os.path.join(tmp, "caller_stream.bin")
@@ -140,7 +180,7 @@ def replay_lifecycle_case(case):
 
         f = None
         wr = None          # ONE writer object, entered once per writer_with step
-        tracker = OpenTracker(tmp)
+        tracker = OpenTracker(tmp, interrupt=(cfg["fault"] == "interrupt"))
         tracker.__enter__()
         for i, o in enumerate(rec["hist"]):
             op = o["op"]
@@ -162,6 +202,8 @@ def replay_lifecycle_case(case):
                     f.close()
                 elif op == "exit_with":
                     f.__exit__(None, None, None)
+                elif op == "late_write":
+                    wr.write_segment([ChannelObject("g", "c", np.arange(2, dtype=np.int32))])
                 elif op == "writer_with":
                     wpath = os.path.join(tmp, "out.tdms")
                     if wr is not None:
@@ -179,7 +221,7 @@ def replay_lifecycle_case(case):
                         during = lib_fds(tmp, exclude) | tracker.open_roles()
                         if o["raises"]:
                             raise KeyError("body of the with-block fails")
-            except Exception as ex:  # noqa
+            except (Exception, KeyboardInterrupt) as ex:  # noqa
                 raised = ex
                 keep.append(ex)
             tracker.active = False
